@@ -121,7 +121,8 @@ fn run_bounded<S: SliceMut<Element = i32>>(
         let ix = if a["i"].is_i64() { idx(a) } else { 0 };
         let wv = a["v"].as_i64().unwrap_or(0) as i32;
         let kk = a["k"].as_u64().unwrap_or(0) as usize;
-        let _ = (ix, wv, kk);
+        let mm = a["m"].as_u64().unwrap_or(0) as usize;
+        let _ = (ix, wv, kk, mm);
         let (r, h, _) = measured(|| {
             catch(|| match ev {
                 "push" => R::Opt(rb.push(wv)),
@@ -154,6 +155,16 @@ fn run_bounded<S: SliceMut<Element = i32>>(
                     }
                     R::Items
                 }
+                // the provided Iterator methods of the draining iterator
+                "drain_nth" => R::Opt(rb.drain().nth(kk)),
+                "drain_step" => {
+                    for x in rb.drain().step_by(kk).take(mm) {
+                        items.push(x);
+                    }
+                    R::Items
+                }
+                "drain_last" => R::Opt(rb.drain().last()),
+                "drain_count" => R::Opt(Some(rb.drain().count() as i32)),
                 "iter_mut" => {
                     for (r, w) in rb.iter_mut().zip(wr.iter()) {
                         items.push(*r);
@@ -309,7 +320,8 @@ fn run_fixed<S: SliceMut<Element = i32>>(
         let ix = if a["i"].is_i64() { idx(a) } else { 0 };
         let wv = a["v"].as_i64().unwrap_or(0) as i32;
         let kk = a["k"].as_u64().unwrap_or(0) as usize;
-        let _ = (ix, wv, kk);
+        let mm = a["m"].as_u64().unwrap_or(0) as usize;
+        let _ = (ix, wv, kk, mm);
         let (r, h, _) = measured(|| {
             catch(|| match ev {
                 "push" => R::Opt(Some(rb.push(wv))),
@@ -497,10 +509,17 @@ fn gen(seed: u64, size: &str, path: &str) {
                 } else if k < 76 {
                     fresh += 1;
                     json!({"ev":"index_mut","a":{"i": rng.below(cap as u64 + 1), "v": fresh}})
-                } else if k < 84 {
+                } else if k < 80 {
                     let kk = rng.below(cap as u64 + 2) as usize;
                     approx_len = approx_len.saturating_sub(kk);
                     json!({"ev":"drain","a":{"k": kk}})
+                } else if k < 84 {
+                    match rng.below(4) {
+                        0 => json!({"ev":"drain_nth","a":{"k": rng.below(cap as u64 + 2)}}),
+                        1 => json!({"ev":"drain_step","a":{"k": rng.range(1, cap as i64 + 1), "m": rng.below(cap as u64 + 2)}}),
+                        2 => json!({"ev":"drain_last","a":{"x":0}}),
+                        _ => json!({"ev":"drain_count","a":{"x":0}}),
+                    }
                 } else if k < 92 {
                     // write through the mutable views: the driver does not know the exact length,
                     // so it offers `cap` fresh values; the spec takes the first `len` of them
